@@ -444,6 +444,18 @@ func (db *SingleBucketBackend) deleteObjectLocked(bucketName, objectName string)
 		return err
 	}
 
+	// Directories only exist to hold objects: remove the parents this delete
+	// left empty, otherwise they show up as common prefixes of keys that are gone.
+	for dir := path.Dir(path.Clean(objectName)); dir != "." && dir != "/" && !strings.HasPrefix(dir, ".."); dir = path.Dir(dir) {
+		entries, err := afero.ReadDir(db.fs, filepath.FromSlash(dir))
+		if err != nil || len(entries) > 0 {
+			break
+		}
+		if err := db.fs.Remove(filepath.FromSlash(dir)); err != nil {
+			break
+		}
+	}
+
 	return nil
 }
 
